@@ -48,12 +48,21 @@ def t1_t2(repo, res, roots, pid_rule_prefix="", lazy=LAZY_INIT, ctor_ok=CTOR_OK,
     res.analysed["unresolved_callees"] = unresolved
     classes = set(repo.classes)
     n_writes = 0
+    helpers = rules_t1.repo_helpers(repo)
+    # writes inside a helper are accounted for by a caller whose T1 analysis treats the call as the overwrite/restore event
+    accounted = {}
+    for fid in sorted(seen):
+        t1 = rules_t1.analyse(g.nodes[fid].node, helpers)
+        if t1 and not t1["bad"] and t1.get("helper_calls"):
+            for c in ast.walk(g.nodes[fid].node):
+                if isinstance(c, ast.Call) and isinstance(c.func, ast.Name) and c.func.id in helpers:
+                    accounted.setdefault(c.func.id, set()).update(t1["attrs"])
     for fid in sorted(seen):
         n = g.nodes[fid]
         fn = n.node
         fname = fid.split(":")[1]
-        t1 = rules_t1.analyse(fn)
-        paired = set()
+        t1 = rules_t1.analyse(fn, helpers)
+        paired = set(accounted.get(fn.name, ()))
         if t1:
             res.evaluations += t1["exits"]
             if t1["bad"]:
@@ -62,7 +71,7 @@ def t1_t2(repo, res, roots, pid_rule_prefix="", lazy=LAZY_INIT, ctor_ok=CTOR_OK,
                                 f"temporary overwrite of {','.join(t1['attrs'])}",
                                 f"not restored on {len(exits)} exit(s): " + " ; ".join(exits[:6]) + (" ..." if len(exits) > 6 else ""),
                                 getattr(t1["bad"][0][2], "lineno", None), path=g.path_to(parent, fid)))
-            paired = set(t1["attrs"])
+            paired |= set(t1["attrs"])
             res.ob(f"T1:{fname}:{','.join(t1['attrs'])}", not t1["bad"],
                    {"rule": "T1", "function": fname, "attrs": t1["attrs"], "exits_examined": t1["exits"],
                     "unrestored_exits": len(t1["bad"])})
